@@ -368,6 +368,8 @@ if os.path.isdir(CORPUS):
             diff = differing(res)
             if not diff:
                 continue
+            if mode == "known":
+                G.AVOID.add(declared)      # still present: the generator keeps clear of it (see c07_gen.AVOID)
             csrc = open(os.path.join(CORPUS, f)).read()
             sig = report(None, res, "corpus-" + f[:-2], "corpus/C07/" + f, src=csrc,
                          fallback_sig=declared if mode == "known" else None,
@@ -375,7 +377,7 @@ if os.path.isdir(CORPUS):
             if mode == "known" and sig != declared:
                 ck.log("note: corpus/C07/%s is filed under %s but now classifies as %s" % (f, declared, sig))
 corpus_diffs[0] = stats["diff_programs"]
-ck.stage("corpus", replayed=corpus_n)
+ck.stage("corpus", replayed=corpus_n, generator_avoids=sorted(G.AVOID))
 ck.cov["corpus_replayed"] = corpus_n
 
 # ---------------------------------------------------------------------------------------------- generated programs
